@@ -80,9 +80,9 @@ Named(name, type, parent, growfails) ==
              fault |-> IF growfails THEN "grow" ELSE "none"]
       lab(t, p) == [type |-> t, name |-> n, parent |-> p, sec |-> -1, off |-> 0]
   IN
-  /\ Len(labels) < MaxNamed /\ Len(hist) < MaxOpsI
+  /\ Len(labels) < MaxNamed /\ (MaxOpsI = 0 \/ Len(hist) < MaxOpsI)
   /\ (growfails => (type \in 1 .. 3 /\ Len(n) > 0 /\ size + 1 > grow))      \* a failure is only injected where an allocation happens
-  /\ hist' = Append(hist, [op |-> "named", name |-> name, type |-> type, parent |-> parent, fault |-> op.fault])
+  /\ hist' = IF MaxOpsI = 0 THEN hist ELSE Append(hist, [op |-> "named", name |-> name, type |-> type, parent |-> parent, fault |-> op.fault])
   /\ IF Len(n) = 0 THEN
        IF type # 0 THEN Refuse(op, "InvalidLabelName")
        ELSE /\ Ret(op, "Ok", id) /\ labels' = Append(labels, lab(0, -1)) /\ UNCHANGED <<data, count, grow, pidx, size, nmap>>
@@ -116,8 +116,8 @@ Lookup(name, parent) ==
   LET hn == HashName(name)
       h == IF parent # -1 THEN XorSmall(hn.h, parent) ELSE hn.h
       r == IF Len(hn.n) = 0 THEN -1 ELSE Get(h, hn.n, parent)
-  IN /\ Len(hist) < MaxOpsI
-     /\ hist' = Append(hist, [op |-> "lookup", name |-> name, parent |-> parent])
+  IN /\ (MaxOpsI = 0 \/ Len(hist) < MaxOpsI)
+     /\ hist' = IF MaxOpsI = 0 THEN hist ELSE Append(hist, [op |-> "lookup", name |-> name, parent |-> parent])
      /\ last' = [op |-> "lookup", name |-> name, parent |-> parent, r |-> r]
      /\ UNCHANGED <<data, count, grow, pidx, size, labels, nmap>>
 
@@ -125,9 +125,9 @@ INext == \/ \E n \in INames, t \in ITypes, p \in IParents, g \in BOOLEAN : Named
          \/ \E n \in INames, p \in IParents : Lookup(n, p)
 ISpec == IInit /\ [][INext]_ivars
 
-MCPrimes == <<2, 3, 5, 6, 11, 12, 23>>                \* small table: 1 -> 5 -> 11 -> 23 buckets
+MCPrimes == <<2, 2, 3, 4, 5, 6, 7>>                   \* small table: 1 -> 3 -> 5 -> 7 buckets (growth at the 2nd, 3rd and 5th name)
 RealPrimes == <<2, 11, 29, 41, 59, 83, 131, 191, 269, 383, 541>>
-MCINames == {<<>>, <<1>>, <<2>>, <<1, 0, 2>>, <<1, 2>>, <<2, 1>>}
+MCINames == {<<>>, <<1>>, <<2>>, <<1, 0, 2>>, <<1, 1, 1>>}
 MCIParents == {-1, 0, 1}
 SimNames == {<<64 + k>> : k \in 1 .. 26} \cup {<<97, 64 + k>> : k \in 1 .. 26}
 SimParents == {-1, 0, 1, 2}
@@ -151,7 +151,8 @@ Structure == /\ Len(data) = count
              /\ Len(Flat(data, 1)) = size
 IInv == LookupAgrees /\ Structure /\ R!KeysUnique /\ R!NMapExact /\ R!ParentsValid /\ R!NamesWellFormed
 
-ExportI == Len(hist) = MaxOpsI => PrintT(<<"BEH", hist>>)
+ExportI == (MaxOpsI > 0 /\ Len(hist) = MaxOpsI) => PrintT(<<"BEH", hist>>)
 (* reachability control (must be violated): the table grows twice *)
 NeverGrewTwice == pidx < 4
+IView == <<data, count, grow, pidx, size, labels, nmap, last>>
 =============================================================================
